@@ -84,6 +84,7 @@ type rreq struct {
 	got       atomic.Pointer[gotInfo]
 	err       error
 	finished  bool // harness asked it to finish / cancelled it
+	armCI     atomic.Bool // GotConn hook calls CloseIdleConnections (once, only during the start operation)
 }
 
 func (q *rreq) isDone() bool {
@@ -220,13 +221,16 @@ type scenario struct {
 	gots  []gotInfo
 	// set by settle when a connection is idle and owned at once
 	ownedAndIdle string
+	// set by settle when a snapshot breaks the limits / duplicate oracle
+	poolViolation string
 }
 
-func (sc *scenario) start(host int, mode string) *rreq {
+func (sc *scenario) start(host int, mode string, ci bool) *rreq {
 	ctx, cancel := context.WithCancel(context.Background())
 	q := &rreq{idx: len(sc.reqs), host: host, mode: mode, cancel: cancel, gate: make(chan struct{}), done: make(chan struct{})}
 	sc.reqs = append(sc.reqs, q)
 	sc.env.gates.Store(fmt.Sprint(q.idx), q)
+	q.armCI.Store(ci)
 	trace := &httptrace.ClientTrace{GotConn: func(info httptrace.GotConnInfo) {
 		id := -1
 		if tc, ok := info.Conn.(*trackedConn); ok {
@@ -237,6 +241,11 @@ func (sc *scenario) start(host int, mode string) *rreq {
 		sc.gots = append(sc.gots, *g)
 		sc.gotMu.Unlock()
 		q.got.Store(g)
+		if q.armCI.CompareAndSwap(true, false) {
+			// another goroutine's CloseIdleConnections exactly here: the connection has been
+			// handed to this request, nothing of the request has been written yet
+			sc.cl.GetTransport().CloseIdleConnections()
+		}
 	}}
 	addr := sc.addrOf(host)
 	go func() {
@@ -292,6 +301,11 @@ func (sc *scenario) settle(mustBeDone []*rreq, mustBeClosed []*trackedConn) (req
 			}
 		}
 		if sc.ownedAndIdle != "" {
+			return snap, false
+		}
+		if msg := limitsOracle(snap); msg != "" {
+			// a lock-consistent snapshot: no waiting needed to call this a violation
+			sc.poolViolation = msg
 			return snap, false
 		}
 		ok := true
@@ -448,6 +462,7 @@ type scriptOp struct {
 	host int
 	mode string
 	idx  int // request index for finish / cancel
+	ci   bool // start: CloseIdleConnections from the GotConn hook
 }
 
 type scripted struct {
@@ -462,7 +477,10 @@ func scriptedScenarios() []scripted {
 	fi := func(i int) scriptOp { return scriptOp{kind: "finish", idx: i} }
 	ca := func(i int) scriptOp { return scriptOp{kind: "cancel", idx: i} }
 	ci := scriptOp{kind: "closeidle"}
+	sc := func(h int) scriptOp { return scriptOp{kind: "start", host: h, mode: "keep", ci: true} }
 	return []scripted{
+		{replayCfg{MaxIdle: 0, MaxIdleHost: 2, MaxHost: 0}, []scriptOp{st(0), st(0), st(1), fi(0), fi(1), sc(0), fi(2), sc(1), fi(3), fi(4), sc(0), fi(5)}},
+		{replayCfg{MaxIdle: 2, MaxIdleHost: 2, MaxHost: 2}, []scriptOp{st(0), st(0), st(1), fi(1), fi(0), fi(2), sc(0), st(0), fi(3), fi(4), sc(1), fi(5)}},
 		{replayCfg{MaxIdle: 0, MaxIdleHost: 2, MaxHost: 1}, []scriptOp{st(0), st(0), st(0), fi(0), st(0), fi(1), fi(2), fi(3), st(0), fi(4)}},
 		{replayCfg{MaxIdle: 0, MaxIdleHost: 0, MaxHost: 1}, []scriptOp{st(0), st(0), st(0), st(0), fi(0), fi(1), st(0), fi(2), fi(3), fi(4)}},
 		{replayCfg{MaxIdle: 0, MaxIdleHost: 1, MaxHost: 2}, []scriptOp{st(0), st(0), st(0), st(0), st(0), fi(1), fi(0), st(0), fi(2), fi(3), fi(4), fi(5)}},
@@ -580,11 +598,11 @@ func runScenario(cr *childResult, rng *hk.Rand, env *replayEnv, sidx int, sp *sc
 	for step := 0; step < nOps && !unsettled; step++ {
 		inf, blk := inflight(), blocked()
 		// choose the operation: scripted, or random
-		choice, host, mode := "", 0, ""
+		choice, host, mode, ci := "", 0, "", false
 		var target *rreq
 		if script != nil {
 			so := script[step]
-			choice, host, mode = so.kind, so.host, so.mode
+			choice, host, mode, ci = so.kind, so.host, so.mode, so.ci
 			if choice == "finish" || choice == "cancel" {
 				if so.idx >= len(sc.reqs) || sc.reqs[so.idx].isDone() || sc.reqs[so.idx].finished {
 					continue
@@ -604,6 +622,7 @@ func runScenario(cr *childResult, rng *hk.Rand, env *replayEnv, sidx int, sp *sc
 					host = 2
 				}
 				mode = hk.Pick(rng, []string{"keep", "keep", "keep", "close", "empty", "early", "earlypart"})
+				ci = rng.Chance(25)
 			case k < 80 && len(inf) > 0:
 				choice, target = "finish", hk.Pick(rng, inf)
 			case k < 88 && len(blk) > 0:
@@ -616,7 +635,7 @@ func runScenario(cr *childResult, rng *hk.Rand, env *replayEnv, sidx int, sp *sc
 		}
 		switch choice {
 		case "start":
-			q := sc.start(host, mode)
+			q := sc.start(host, mode, ci)
 			var must []*rreq
 			if host == 2 {
 				must = []*rreq{q}
@@ -624,8 +643,14 @@ func runScenario(cr *childResult, rng *hk.Rand, env *replayEnv, sidx int, sp *sc
 				nontrivial = true
 			}
 			snap, ok := sc.settle(must, nil)
+			q.armCI.Store(false) // a request that is still waiting for a connection fires no hook later
 			cr.count("replay.op=start")
-			record(fmt.Sprintf("OStart %d", host), map[string]interface{}{"start": q.idx, "host": host, "mode": mode}, snap, ok)
+			opName := "OStart"
+			if ci {
+				opName = "OStartCI"
+				cr.count("replay.op=start+closeidle-at-GotConn")
+			}
+			record(fmt.Sprintf("%s %d", opName, host), map[string]interface{}{"start": q.idx, "host": host, "mode": mode, "closeidle_at_gotconn": ci}, snap, ok)
 		case "finish":
 			if len(blk) >= 2 {
 				cr.count("replay.finish_with>=2_waiters")
@@ -679,6 +704,11 @@ func runScenario(cr *childResult, rng *hk.Rand, env *replayEnv, sidx int, sp *sc
 	}
 	if sc.ownedAndIdle != "" {
 		cr.fail(hk.Failure{Sig: "exclusive:replay:idle-and-owned", What: "an HTTP/1.1 connection is handed to a request and sits in the idle pool at the same time: " + sc.ownedAndIdle,
+			Input: map[string]interface{}{"cfg": cfg, "ops": descOps}})
+		return true
+	}
+	if sc.poolViolation != "" {
+		cr.fail(hk.Failure{Sig: "limits:replay:" + strings.SplitN(sc.poolViolation, " ", 2)[0], What: "pool bookkeeping violates the property: " + sc.poolViolation,
 			Input: map[string]interface{}{"cfg": cfg, "ops": descOps}})
 		return true
 	}
